@@ -126,7 +126,7 @@ def link_fn():
 
 UNIT = Unit(
     name="U-LINK",
-    properties=["C15", "C13", "C04"],
+    properties=["C15", "C13", "C04", "C16"],
     # the determinism clause (first_bad / canonical order) is C13's; everything else is C15's
     clause_scope={"C13": {"only": ["first_bad", "canonical("]}, "C15": {"except": ["first_bad", "canonical("]}, "C04": {"except": ["first_bad", "canonical("]}},
     rules=["attrs", "fmtmsg", "msg_to_string", ("consume", ["cores"]), "for_entries"],
